@@ -52,6 +52,7 @@ func c09Policies(t *vlib.Target) (map[string]vlib.PolicySpec, []uint64) {
 }
 
 type c09Plan struct {
+	inject       []string // strace fault injection: the kernel call fails/returns without attaching anything
 	desc         string
 	threads      int
 	calls        []vlib.LoadCall
@@ -111,6 +112,21 @@ func c09() {
 				{Thread: 3, Op: "load", Flags: fl, NNP: nnp, Policy: "valid0"}, {Thread: 0, Op: "load", Flags: fl, NNP: nnp, Policy: "valid1"}}})
 		}
 	}
+	// injected kernel answers (strace): every way seccomp(2)/prctl(2) can decline must surface as an error, with nothing attached
+	for _, errno := range []string{"EINVAL", "EACCES", "ENOMEM", "EFAULT", "ESRCH", "EBUSY", "ENOSYS", "EPERM", "EAGAIN", "EINTR"} {
+		for _, fl := range []uint32{0, flagTSync, flagTSync | flagLog} {
+			plans = append(plans, c09Plan{desc: fmt.Sprintf("injected seccomp(2) failure %s flags=%#x", errno, fl), threads: 2, strace: true, inject: []string{"-e", "inject=seccomp:error=" + errno},
+				calls: []vlib.LoadCall{{Thread: 1, Op: "load", Flags: fl, NNP: true, Policy: "valid0"}, {Thread: 0, Op: "load", Flags: fl, NNP: false, Policy: "valid1"}}})
+		}
+	}
+	for _, fl := range []uint32{flagTSync, flagTSync | flagLog, flagTSync | 4} {
+		plans = append(plans, c09Plan{desc: fmt.Sprintf("injected positive seccomp(2) return (thread id) flags=%#x", fl), threads: 2, strace: true, inject: []string{"-e", "inject=seccomp:retval=4242"},
+			calls: []vlib.LoadCall{{Thread: 1, Op: "load", Flags: fl, NNP: true, Policy: "valid0"}}})
+	}
+	for _, errno := range []string{"EINVAL", "EPERM", "ENOSYS", "EACCES"} {
+		plans = append(plans, c09Plan{desc: "injected prctl(2) failure " + errno, threads: 2, strace: true, inject: []string{"-e", "inject=prctl:error=" + errno},
+			calls: []vlib.LoadCall{{Thread: 1, Op: "load", Flags: 0, NNP: true, Policy: "valid0"}, {Thread: 0, Op: "load", Flags: flagTSync, NNP: true, Policy: "valid1"}}})
+	}
 	nCat := len(plans)
 	// PRNG histories
 	nRandom := run.N(240, 8000)
@@ -155,7 +171,7 @@ func c09() {
 		plans = append(plans, pl)
 	}
 	for i := range plans {
-		plans[i].strace = i%9 == 0
+		plans[i].strace = i%9 == 0 || plans[i].inject != nil
 	}
 
 	bin, err := vlib.BuildHarnessCmd("vchild", "")
@@ -176,7 +192,7 @@ func c09() {
 				used[c.Policy] = pols[c.Policy]
 			}
 		}
-		cc := &vlib.ChildCase{Unprivileged: pl.unprivileged, History: &vlib.HistoryCase{Threads: pl.threads, Calls: pl.calls, Policies: used, Probes: probeNrs}}
+		cc := &vlib.ChildCase{Unprivileged: pl.unprivileged, StraceInject: pl.inject, History: &vlib.HistoryCase{Threads: pl.threads, Calls: pl.calls, Policies: used, Probes: probeNrs}}
 		res, err := vlib.RunChild(bin, "history", cc, pl.strace, 60*time.Second)
 		if err != nil || res.TimedOut || res.Line("done") == nil {
 			run.Count("watchdog_or_crash", 1)
@@ -275,6 +291,9 @@ func c09() {
 				bf, af := get(before, tid, "Seccomp_filters"), get(after, tid, "Seccomp_filters")
 				bfn, _ := strconv.Atoi(bf)
 				afn, _ := strconv.Atoi(af)
+				if pl.inject != nil {
+					run.Count("injected_kernel_answers", 1)
+				}
 				if isNil {
 					run.Count("nil_returns_checked", 1)
 					if afn != bfn+1 || get(after, tid, "Seccomp") != "2" {
